@@ -2,6 +2,10 @@ NOTE_COMMON = ("trusts gqlparser v2.5.1 (also used by pebbles), the harness's se
                "the Go runtime and race detector; absence of violations is a statement about the explored cases only")
 
 CHECKS = [
+    {"property_id": "C07", "category": "exploration", "design_ref": "DESIGN.md §5 C07",
+     "technique": "property-based testing (rapid) over byte strings, JSON shapes, multipart layouts and operations; native go fuzzing of the handler in the thorough tier",
+     "text": "generated POST requests (raw bytes, hostile constants, byte-mutated valid bodies, JSON shape grammar, multipart layout grammar, syntactically valid operations against corner-case schemas) are sent through the real handler of a gateway over a generated world; the oracle demands a return without panic or process death, status 422 exactly when an independent reading of the documented request shape says undecodable (open cases accept both), a JSON envelope with data and/or errors per operation, errors + data:null for operations invalid against the gateway schema, and a correctly answered probe request afterwards",
+     "level_note": NOTE_COMMON + "; process-killing panics in worker goroutines are attributed through the persisted current case"},
     {"property_id": "C05", "category": "exploration", "design_ref": "DESIGN.md §5 C05",
      "technique": "property-based testing (rapid): conflict-introducing edits of generated mergeable worlds, all permutations of the service list (exhaustive for <=4 services)",
      "text": "a generated mergeable world receives 0..2 conflict edits from a catalogue of 22 (every kind the statement lists) and 0..2 neutral edits; each service SDL stays individually valid; the real merger is run for every permutation of the service list (all n! for n<=4): with a conflict edit every permutation must return an error (no panic, no success), without one acceptance, the merged fact set and the root/Node-field routes must be identical across permutations",
@@ -28,7 +32,7 @@ CHECKS = [
      "level_note": NOTE_COMMON + "; schedule control limited to callbacks and the 9 verif hook points"},
 ]
 
-_PENDING = ["C06","C07","C08","C09","C10","C11","C12","C13","C14","C15","C16","C17","C18","C19"]
+_PENDING = ["C06","C08","C09","C10","C11","C12","C13","C14","C15","C16","C17","C18","C19"]
 NOT_APPLICABLE = [{"property_id": p, "reason": "check not built yet (work in progress; the technique applies, see DESIGN.md §5)"} for p in _PENDING]
 
 NOTES = "All checks are property-based tests / fuzz targets in /verif/harness (Go, rapid v1.3.0) run by /verif/check; see DESIGN.md."
